@@ -39,6 +39,10 @@ def join(a, b):
         return UNCONF
     if {a, b} <= {PARTS_ABS, PARTS_TAIL, PARTS_ANY}:
         return PARTS_ANY
+    if {a, b} == {"ABS_DS", ABS_CLEAN}:
+        return "ABS_DS"
+    if {a, b} == {"ABS_DS", ABS_ANY}:
+        return ABS_ANY
     if {a, b} <= {ABS_ANY, ABS_CLEAN, WIRE, REL_ANY, REL_CLEAN}:
         return WIRE if ({a, b} & {WIRE, REL_ANY, REL_CLEAN}) else ABS_ANY
     return TOP
@@ -127,11 +131,24 @@ def interpret_resolver(p):
                 v = ev(a, env)
                 if v in (WIRE, ABS_ANY, ABS_CLEAN, REL_ANY, REL_CLEAN):
                     return v
-                if v in (ANCHORSTR, "S_NORM_DS"):
-                    return ABS_ANY   # may be '//'-anchored: no entry rooted at '/' is its ancestor, relative_to('/') raises
+                if v == "S_NORM_DS":
+                    return "ABS_DS"  # '..' folded but possibly '//'-anchored: no entry rooted at '/' is its ancestor, relative_to('/') raises
+                if v == ANCHORSTR:
+                    return ABS_ANY
                 return TOP
+            if isinstance(fn, ast.Name) and fn.id == "str" and e.args and isinstance(e.args[0], ast.Name) and e.args[0].id == PATH and env.get(PATH, TOP) == TOP:
+                return "S_WIRE"
+            if isinstance(fn, ast.Name) and fn.id == "str" and e.args and ev(e.args[0], env) == "ABS_DS":
+                return "S_NORM_DS"
             if isinstance(fn, ast.Name) and fn.id == "str" and e.args:
                 return {REL_CLEAN: S_REL_CLEAN, REL_ANY: S_REL_ANY, ABS_ANY: "S_ABS", ABS_CLEAN: "S_ABS", WIRE: "S_WIRE"}.get(ev(e.args[0], env), TOP)
+            if isinstance(fn, ast.Attribute) and fn.attr == "as_posix" and not e.args:
+                return {REL_CLEAN: S_REL_CLEAN, REL_ANY: S_REL_ANY, ABS_ANY: "S_ABS", ABS_CLEAN: "S_ABS", WIRE: "S_WIRE"}.get(ev(fn.value, env), TOP)
+            if d in ("posixpath.join", "os.path.join") and len(e.args) >= 2:
+                vs = [ev(a, env) for a in e.args]
+                if vs[0] == "S_ABS" and all(v in ("S_WIRE", "S_ABS", S_REL_CLEAN, S_REL_ANY) for v in vs[1:]):
+                    return "S_ABS"    # absolute whatever the later parts are; may start with '//' and contain '..'
+                return TOP
             if d.endswith("normpath") and e.args:
                 v = ev(e.args[0], env)
                 if v in ("S_ABS", ABS_ANY, ABS_CLEAN):
@@ -143,6 +160,8 @@ def interpret_resolver(p):
                     return {ABS_CLEAN: REL_CLEAN, ABS_ANY: REL_ANY}.get(v, TOP)
                 if fn.attr in ("is_absolute", "is_relative_to"):
                     return BOOL
+                if fn.attr in ("lstrip", "strip") and v in ("S_ABS", "S_NORM_DS") and len(e.args) == 1 and isinstance(e.args[0], ast.Constant) and e.args[0].value == "/":
+                    return S_REL_ANY if v == "S_ABS" else S_REL_CLEAN
                 if fn.attr == "replace" and v in (S_REL_CLEAN, S_REL_ANY) and len(e.args) >= 2 and isinstance(e.args[1], ast.Constant) and isinstance(e.args[1].value, str):
                     # rewriting characters of the already-normalised relative string: harmless unless it can create separators or dots
                     return S_REL_ANY if (set(e.args[1].value) & set("/.\\")) else v
@@ -624,4 +643,12 @@ def rule_memo(ctx):
                            construct=f"memo:{m_.name}:{dep}", function=p.qualname(m_))
 
 
-RULES = [rule_res, rule_sink, rule_cwd, rule_only, rule_memo]
+def rule_lookup(ctx):
+    from .c04 import rule_wrapper, rule_same
+    ctx.rule("C02.LOOKUP", "the path used for the permission lookup is the resolver's normalised virtual path of the same argument, resolved once at command time - the location "
+                           "looked up is the location acted on (shared with C04.ARG / C04.SAME)")
+    ctx.borrow(rule_wrapper, {"C04.ARG": "C02.LOOKUP"})
+    ctx.borrow(rule_same, {"C04.SAME": "C02.LOOKUP"})
+
+
+RULES = [rule_res, rule_sink, rule_cwd, rule_only, rule_memo, rule_lookup]
